@@ -58,29 +58,29 @@ GStep ==
 
 MaxDueOf(ts) == IF ts = {} THEN 0 ELSE CHOOSE m \in {t.due : t \in ts} : \A t \in ts : t.due <= m
 
-\* every node reachable again, then time passes until every pending retry has run + TailTicks
+\* the audit reads, chained inside the finishing step (each result is bound once as a value)
+RECURSIVE AuditFrom(_, _, _)
+AuditFrom(st, i, acc) ==
+  IF i > Len(AuditOps)
+    THEN s' = st /\ hist' = acc
+    ELSE \E r \in {StepOf(st, AuditOps[i])} : AuditFrom(r.s, i + 1, Append(acc, Rec(r)))
+
+\* every node reachable again, then time passes until every pending retry has run + TailTicks,
+\* then the audit
 Finish ==
   /\ ~fin
   /\ nops = MaxOps
   /\ fin' = TRUE
+  /\ aud' = Len(AuditOps)
   /\ LET healed == [s EXCEPT !.up = [nd \in Nodes |-> TRUE]]
          md     == MaxDueOf(s.tasks)
          n      == (IF md > s.clk THEN md - s.clk ELSE 0) + TailTicks
      IN \E a \in {AdvanceF(healed, n)} :
-          /\ Apply(a)
-          /\ hist' = Append(hist, [Rec(a) EXCEPT !.op = "finish"])
-  /\ UNCHANGED <<nops, ndown, aud>>
+          /\ out' = Obs(a)
+          /\ AuditFrom(a.s, 1, Append(hist, [Rec(a) EXCEPT !.op = "finish"]))
+  /\ UNCHANGED <<nops, ndown>>
 
-\* the audit reads, one per step
-Audit ==
-  /\ fin /\ aud < Len(AuditOps)
-  /\ aud' = aud + 1
-  /\ \E r \in {StepOf(s, AuditOps[aud + 1])} :
-        /\ Apply(r)
-        /\ hist' = Append(hist, Rec(r))
-  /\ UNCHANGED <<nops, ndown, fin>>
-
-GNext == GStep \/ Finish \/ Audit
+GNext == GStep \/ Finish
 
 GSpec == GInit /\ [][GNext]_gvars
 
